@@ -281,6 +281,15 @@ def expected (f : Frame) : LFrame :=
   { base := f.base, idx := idx0 f.idx, velRev := f.velRev,
     order := f.order.map Num.val, vpot := some (eNum f.vpot), ekin := some (eNum f.ekin) }
 
+/-- a loaded phase point handed to `PathStorage.output` again (the loaded path is stored under a
+    new number): its file lies in the old `accepted/` directory, NaN energies are written as "nan"
+    exactly like missing ones, a NaN order parameter does not occur (written as 0 here) -/
+def reframe (dir : String) (f : LFrame) : Frame :=
+  { dir := dir, base := f.base, idx := some f.idx, velRev := f.velRev,
+    order := f.order.map (fun x => match x with | .val v => v | .nan => 0),
+    vpot := (match f.vpot with | some (.val v) => some v | _ => none),
+    ekin := (match f.ekin with | some (.val v) => some v | _ => none) }
+
 /-! ## Part B — deletion of old paths -/
 
 /-- a file below load/ -/
